@@ -334,7 +334,8 @@ def random_cases(draw):
     small = st.text(alphabet=alphabet, min_size=1, max_size=3).filter(lambda s: s not in (".", "..", "**"))
     pool = draw(st.lists(small, min_size=2, max_size=4))
     names = [draw(st.one_of(st.sampled_from(pool), st.sampled_from(pool), small, st.sampled_from(pool).map(lambda s: s + "\n"), st.sampled_from(pool).map(lambda s: s.swapcase()))) for _ in range(size)]
-    names = [{"tag": n} if draw(st.integers(0, 7)) == 0 and "\n" not in n else n for n in names]  # some names are str-subclass objects whose str() differs
+    names = [{"tag": n} if draw(st.integers(0, 7)) == 0 and "\n" not in n else n for n in names]
+    names = [{"enum": [draw(st.sampled_from(["plain", "int", "str", "flag"])), draw(st.integers(0, 2))]} if draw(st.integers(0, 9)) == 0 else n for n in names]  # enum members as names  # some names are str-subclass objects whose str() differs
     if draw(st.integers(0, 9)) < 7:
         names = uniquify(names, parents)
     names = [n if sep not in rr.name_text(n) else "n%d" % i for i, n in enumerate(names)]  # 'X'.swapcase() with the separator 'x'
